@@ -12,8 +12,11 @@ BODY_KERNELS = {
     "sse2": "compare::dist_body::x86_sse2::packed_distance_as_u16x8",
     "sse4.1": "compare::dist_body::x86_sse4_1::packed_distance_as_u32x4",
     "avx2": "compare::dist_body::x86_avx2::packed_distance_as_u32x8",
+    "neon": "compare::dist_body::arm_neon::packed_distance_as_u16x8",
 }
 INTR = re.compile(r"core::arch::x86(?:_64)?::_mm(?:256)?_(\w+)$")
+NEON = re.compile(r"core::arch::(?:aarch64|arm)::v(\w+)$")
+WASM = re.compile(r"core::arch::wasm32::(\w+)$")
 WRAP = re.compile(r"<core::num::Wrapping<u(32|64)> as core::ops::(\w+)(?:<usize>)?>::(\w+)$")
 
 
@@ -89,6 +92,64 @@ def dag(b, e, depth=0):
                 extra = [("k", imm_of(b, bb))] if imm_of(b, bb) is not None else []
                 return (mm.group(1),) + tuple(a) + tuple(extra)
             return ("intr:" + name,) + tuple(a)
+        m = NEON.match(path)
+        if m:
+            name = m.group(1)
+            a = [dag(b, x, depth + 1) for x in args]
+            if name.startswith("reinterpret"):
+                return a[0]
+            mm = re.match(r"(and|orr|eor|add|sub)q?_u(\d+)$", name)
+            if mm:
+                op = {"orr": "or", "eor": "xor"}.get(mm.group(1), mm.group(1))
+                return mk(op, a, lane=int(mm.group(2)))
+            mm = re.match(r"(shl|shr)q_n_u(\d+)$", name)
+            if mm:
+                return mk(mm.group(1), a + [("k", imm_of(b, bb))], lane=int(mm.group(2)))
+            mm = re.match(r"dupq_n_u(\d+)$", name)
+            if mm:
+                lane = int(mm.group(1))
+                v = a[0]
+                if v[0] == "k":
+                    val = v[1] & ((1 << lane) - 1)
+                    full = 0
+                    for i in range(64 // lane):
+                        full |= val << (i * lane)
+                    return splat_const(full, 64)
+                return ("splat", lane, v)
+            mm = re.match(r"paddlq_u(\d+)$", name)
+            if mm:
+                return ("paddl" + mm.group(1), a[0])
+            mm = re.match(r"(get_high|get_low)_u(\d+)$", name)
+            if mm:
+                return (mm.group(1) + mm.group(2), a[0])
+            mm = re.match(r"get_lane_u(\d+)$", name)
+            if mm:
+                return ("lane" + mm.group(1), a[0], ("k", imm_of(b, bb)))
+            if name == "ld1q_u8":
+                return ("ld1q_u8",) + tuple(a)
+            return ("intr:" + name,) + tuple(a)
+        m = WASM.match(path)
+        if m:
+            name = m.group(1)
+            a = [dag(b, x, depth + 1) for x in args]
+            if name == "v128_xor":
+                return mk("xor", a)
+            if name == "v128_and":
+                return mk("and", a)
+            if name == "v128_or":
+                return mk("or", a)
+            mm = re.match(r"u(\d+)x\d+_splat$", name)
+            if mm:
+                return ("splat", int(mm.group(1)), a[0])
+            mm = re.match(r"u(\d+)x\d+_gt$", name)
+            if mm:
+                return ("ugt" + mm.group(1), a[0], a[1])
+            mm = re.match(r"[ui](\d+)x\d+_bitmask$", name)
+            if mm:
+                return ("bitmask" + mm.group(1), a[0])
+            if name == "v128_load":
+                return ("v128_load",) + tuple(a)
+            return ("intr:" + name,) + tuple(a)
         if path.endswith(("::wrapping_add", "::wrapping_shr", "::wrapping_mul")):
             a = [dag(b, x, depth + 1) for x in args]
             return mk(path.rsplit("wrapping_", 1)[-1], a)
@@ -142,6 +203,7 @@ TAILS = {
     "avx2": lambda s: ("shr", ("mul32", ("splat8", 1), s), ("k", 24)),     # same on 256-bit vectors
     "pseudo64": lambda s: ("shr", ("mul64", ("splat8", 1), s), ("k", 56)),  # 64-bit lanes: multiply by 0x0101..01, shift 56
     "sse2": lambda s: ("add16", ("shr16", s, ("k", 8)), ("shr16", ("shl16", s, ("k", 8)), ("k", 8))),  # no 32-bit mullo in SSE2: add high and low bytes of each 16-bit lane
+    "neon": lambda s: ("paddl8", s),  # pairwise add-long of the 16 byte sums into 8 u16 lanes (vpaddlq_u8)
 }
 
 
@@ -185,7 +247,7 @@ def body_kernels(ctx, r, F):
         if s8 is not None:
             got[fam] = (b, s8)
     if len(got) >= 2:
-        ref_fam = sorted(got)[0]
+        ref_fam = "pseudo32" if "pseudo32" in got else sorted(got)[0]  # the scalar kernel is the reference; a difference is reported against the SIMD backend
         ref = got[ref_fam][1]
         for fam, (b, s8) in sorted(got.items()):
             if fam == ref_fam:
@@ -233,53 +295,113 @@ OUTER = {
     "compare::dist_body::x86_sse4_1::distance_64": ("sse4.1", 64, 16),
     "compare::dist_body::x86_avx2::distance_32": ("avx2", 32, 32),
     "compare::dist_body::x86_avx2::distance_64": ("avx2", 64, 32),
+    "compare::dist_body::arm_neon::distance_32": ("neon", 32, 16),
+    "compare::dist_body::arm_neon::distance_64": ("neon", 64, 16),
 }
 
 
+LOAD_FNS = {"_mm_loadu_si128": 16, "_mm256_loadu_si256": 32, "vld1q_u8": 16, "v128_load": 16}
+ELEM_SIZE = {"u8": 1, "u16": 2, "u32": 4, "u64": 8, "__m128i": 16, "__m256i": 32, "uint8x16_t": 16, "v128": 16}
+
+
+def _pointee_size(b, bb):
+    """size in bytes of T for the `<*const T>::add` called in block bb (None if unknown)."""
+    c = b.blocks[bb]["term"]["callee"]
+    for a in c.get("args", []):
+        if a.get("k") == "ty":
+            nm = b.f.tys(a["ty"]).rsplit("::", 1)[-1]
+            return ELEM_SIZE.get(nm)
+    return None
+
+
+def _ptr_base_offset(b, e):
+    """(base, [(count expr, element size)]) of a raw pointer expression: base is a parameter index, ('slice', expr),
+    ('local', l) or None; the offset is the sum of count*size terms."""
+    terms = []
+    while True:
+        if e[0] == "cast":
+            e = e[3]
+            continue
+        if e[0] == "call" and e[2].endswith("::add") and len(e[3]) == 2:
+            terms.append((e[3][1], _pointee_size(b, e[1])))
+            e = e[3][0]
+            continue
+        break
+    base = None
+    if e[0] in ("rawptr", "ref"):
+        tgt = e[2] if e[0] == "ref" else e[-1]
+        if tgt[0] == "deref" and tgt[1][0] == "param":
+            base = tgt[1][1]
+    elif e[0] == "param":
+        base = e[1]
+    elif e[0] == "local":
+        base = ("local", e[1])
+    elif e[0] == "call" and e[2].endswith("::as_ptr"):
+        base = "slice"
+    return base, terms
+
+
 def load_offsets(b):
-    """[(param index, element offset or ('loop', lo, hi), vector bytes)] for every unaligned vector load."""
+    """{(base, byte offset, vector bytes)} for every unaligned vector load of b, with `for i in lo..hi` index loops and
+    pointer-bumping loops (p = p.add(k) once per iteration of a constant-trip loop) expanded; plus a list of loads that
+    could not be resolved."""
     S = sym.Sym(b)
     paths = S.paths()
     hdrs = {p.blocks[-1] for p in paths if p.end == "loop"}
-    allp = list(paths)  # first-iteration paths from the entry: pointer bases are known there
+    rngs = loop_range(b)
     out = set()
     bad = []
-    for p in allp:
-        # loop variable ranges on this path: cond Lt(i, K) from Range::next desugaring is not visible; use
-        # the iterator: for i in 0..K  =>  next(&mut Range{0,K})
-        for (bb, path, args, c) in p.calls:
-            if not path.endswith(("_mm_loadu_si128", "_mm256_loadu_si256")):
+    # induction steps of loop-carried pointers, from a walk that starts at the loop header
+    steps = {}
+    for h in hdrs:
+        for p in S.paths(entry=h):
+            if p.end != "loop":
                 continue
-            W = 16 if path.endswith("si128") else 32
-            e = args[0]
-            off = C(0)
-            while True:
-                if e[0] == "cast":
-                    e = e[3]
+            for (bb, path, args, c) in p.calls:
+                nm = path.rsplit("::", 1)[-1]
+                if nm not in LOAD_FNS:
                     continue
-                if e[0] == "call" and e[2].endswith("::add") and len(e[3]) == 2:
-                    off = e[3][1]
-                    e = e[3][0]
-                    continue
-                break
-            base = None
-            if e[0] == "rawptr" or e[0] == "ref":
-                tgt = e[2]
-                if tgt[0] == "deref" and tgt[1][0] == "param":
-                    base = tgt[1][1]
-            elif e[0] == "param":
-                base = e[1]
-            elif e[0] == "call" and e[2].endswith("::as_ptr"):
-                base = ("slice", n(e[3][0]))
-            o = n(off)
-            if o[0] == "const":
-                out.add((base if not isinstance(base, tuple) else "slice", o[1], W))
-            else:
-                # loop index: payload of Range<usize>::next
-                out.add((base if not isinstance(base, tuple) else "slice", ("loop", sym.fmt(o)[:60]), W))
-            if base is None:
+                base, terms = _ptr_base_offset(b, args[0])
+                if isinstance(base, tuple) and base[0] == "local" and not terms:
+                    after = p.env["locals"].get(base[1]) if p.env else None
+                    if after is not None:
+                        b2, t2 = _ptr_base_offset(b, after)
+                        if b2 == base and len(t2) == 1 and n(t2[0][0])[0] == "const" and t2[0][1]:
+                            steps[bb] = n(t2[0][0])[1] * t2[0][1]
+    for p in paths:
+        for (bb, path, args, c) in p.calls:
+            nm = path.rsplit("::", 1)[-1]
+            if nm not in LOAD_FNS:
+                continue
+            W = LOAD_FNS[nm]
+            base, terms = _ptr_base_offset(b, args[0])
+            if base is None or isinstance(base, tuple):
                 bad.append(sym.fmt(n(args[0]))[:80])
-    return out, bad, allp
+                continue
+            offs = {0}
+            okl = True
+            for cnt, esz in terms:
+                o = n(cnt)
+                if esz is None:
+                    okl = False
+                elif o[0] == "const":
+                    offs = {x + o[1] * esz for x in offs}
+                elif len(rngs) == 1:
+                    # loop index: payload of Range<usize>::next
+                    offs = {x + i * esz for x in offs for i in range(rngs[0][0], rngs[0][1])}
+                else:
+                    okl = False
+            if bb in steps:
+                if len(rngs) == 1:
+                    offs = {x + i * steps[bb] for x in offs for i in range(rngs[0][1] - rngs[0][0])}
+                else:
+                    okl = False
+            if not okl:
+                bad.append(sym.fmt(n(args[0]))[:80])
+                continue
+            for x in offs:
+                out.add((base, x, W))
+    return out, bad, list(paths)
 
 
 def loop_range(b):
@@ -295,6 +417,75 @@ def loop_range(b):
     return sorted(set(out))
 
 
+def x86_reduction(ctx, r, F, b, path, fam):
+    # lane-reduction shuffles: every backend reduces with the immediates 0b11_10_11_10 then 0b01_01_01_01
+    imms = []
+    for i, blk in enumerate(b.blocks):
+        t = blk["term"]
+        if t["t"] == "call" and (t["callee"].get("path") or "").endswith("shuffle_epi32"):
+            imms.append(imm_of(b, i))
+    okimm = len(imms) >= 2 and len(imms) % 2 == 0 and all(imms[j:j + 2] == [0xEE, 0x55] for j in range(0, len(imms), 2))
+    ctx.ob(r, (path.rsplit("::", 2)[-2] + "::" + path.rsplit("::", 1)[-1], "reduction-shuffles"), okimm,
+           "%s reduces lanes with shuffle immediates %s; reference pairs (0xEE, 0x55)" % (path, [hex(x) if x is not None else None for x in imms]), cfg=F.key, where=b.where())
+    # accumulator lane width: every vector add in the outer function uses the lane width of the kernel's result
+    # (16-bit sums for SSE2, 32-bit for SSE4.1/AVX2); a narrower add would wrap partial sums
+    want_lane = {"sse2": "16", "sse4.1": "32", "avx2": "32"}[fam]
+    adds = []
+    for i, blk in enumerate(b.blocks):
+        t = blk["term"]
+        if t["t"] == "call":
+            m_ = re.search(r"_mm(?:256)?_(add|adds|sub)_epi(\d+)$", t["callee"].get("path") or "")
+            if m_:
+                adds.append(m_.group(2))
+    ctx.ob(r, (path.rsplit("::", 2)[-2] + "::" + path.rsplit("::", 1)[-1], "accumulator-lane-width"), bool(adds) and set(adds) == {want_lane},
+           "%s accumulates with %s-bit vector adds; reference %s-bit lanes (the kernel's result width)" % (path, sorted(set(adds)), want_lane), cfg=F.key, where=b.where())
+    # final scalar extraction
+    tail_calls = [((t["callee"].get("path") or "").rsplit("::", 1)[-1]) for _, t in b.calls()]
+    if fam == "sse2":
+        okx = tail_calls.count("_mm_cvtsi128_si32") == 1 and "wrapping_add" in tail_calls and "wrapping_shr" in tail_calls
+    elif fam == "sse4.1":
+        okx = tail_calls.count("_mm_cvtsi128_si32") == 1
+    else:
+        ex = [imm_of(b, i) for i, blk in enumerate(b.blocks) if blk["term"]["t"] == "call" and (blk["term"]["callee"].get("path") or "").endswith("_mm256_extract_epi32")]
+        okx = len(ex) >= 2 and len(ex) % 2 == 0 and all(ex[j:j + 2] == [0, 4] for j in range(0, len(ex), 2))
+    ctx.ob(r, (path.rsplit("::", 2)[-2] + "::" + path.rsplit("::", 1)[-1], "scalar-extraction"), okx,
+           "%s extracts the final sum differently from its family's recorded shape (%s)" % (path, tail_calls[-6:]), cfg=F.key, where=b.where())
+
+
+def neon_reduction(ctx, r, F, b, path):
+    """NEON outer functions: 16-bit accumulation of the kernel results, widening pairwise add to 4 u32 lanes, high half + low half,
+    lane 0 + lane 1."""
+    name = path.rsplit("::", 2)[-2] + "::" + path.rsplit("::", 1)[-1]
+    adds = []
+    for i, blk in enumerate(b.blocks):
+        t = blk["term"]
+        if t["t"] == "call":
+            m_ = re.search(r"::v(add|sub|qadd)q_u(\d+)$", t["callee"].get("path") or "")
+            if m_:
+                adds.append(m_.group(2))
+    ctx.ob(r, (name, "accumulator-lane-width"), bool(adds) and set(adds) == {"16"},
+           "%s accumulates kernel results with %s-bit vector adds; reference 16-bit lanes (the kernel's result width)" % (path, sorted(set(adds))), cfg=F.key, where=b.where())
+    S = sym.Sym(b)
+    rets = [p for p in S.paths() if p.end == "return"]
+    hdrs = {p.blocks[-1] for p in S.paths() if p.end == "loop"}
+    for h in hdrs:
+        rets += [p for p in S.paths(entry=h) if p.end == "return"]
+    ok = bool(rets)
+    why = []
+    for p in rets:
+        d = dag(b, p.ret)
+        A = V("acc")
+        T = ("paddl16", A)
+        SUM = ("add", ("get_high32", T), ("get_low32", T))
+        pat = ("add", ("lane32", SUM, ("k", 0)), ("lane32", SUM, ("k", 1)))
+        m = match(pat, d) or match(("add", pat[2], pat[1]), d)
+        if not m:
+            ok = False
+            why.append(str(d)[:160])
+    ctx.ob(r, (name, "scalar-extraction"), ok,
+           "%s reduces differently from lane0 + lane1 of (high + low) of vpaddlq_u16(acc): %s" % (path, why[:1]), cfg=F.key, where=b.where())
+
+
 def outer_loads(ctx, r, F):
     for path, (fam, size, W) in OUTER.items():
         b = F.fn(path)
@@ -303,57 +494,26 @@ def outer_loads(ctx, r, F):
         ctx.instance(r)
         loads, bad, allp = load_offsets(b)
         rngs = loop_range(b)
-        per = {1: set(), 2: set()}
+        per = {1: [], 2: []}
         ok = not bad
         for (base, off, w) in loads:
-            if base not in (1, 2) or w != W:
+            if base not in (1, 2) or w != W or off % W:
                 ok = False
                 continue
-            if isinstance(off, tuple):
-                if len(rngs) != 1:
-                    ok = False
-                    continue
-                for i in range(rngs[0][0], rngs[0][1]):
-                    per[base].add(i)
-            else:
-                per[base].add(off)
+            per[base].append(off // W)
+        for k_ in per:
+            if len(per[k_]) != len(set(per[k_])):
+                ok = False
+            per[k_] = set(per[k_])
         want = set(range(size // W))
         cover = per[1] == want and per[2] == want
         ctx.ob(r, (path.rsplit("::", 2)[-2] + "::" + path.rsplit("::", 1)[-1], "loads-cover-body"), ok and cover,
                "%s loads vector chunks %s / %s of its two %d-byte bodies (vector width %d, loop ranges %s); reference every chunk %s exactly once from each" % (
                    path, sorted(per[1]), sorted(per[2]), size, W, rngs, sorted(want)), cfg=F.key, where=b.where())
-        # lane-reduction shuffles: every backend reduces with the immediates 0b11_10_11_10 then 0b01_01_01_01
-        imms = []
-        for i, blk in enumerate(b.blocks):
-            t = blk["term"]
-            if t["t"] == "call" and (t["callee"].get("path") or "").endswith("shuffle_epi32"):
-                imms.append(imm_of(b, i))
-        okimm = len(imms) >= 2 and len(imms) % 2 == 0 and all(imms[j:j + 2] == [0xEE, 0x55] for j in range(0, len(imms), 2))
-        ctx.ob(r, (path.rsplit("::", 2)[-2] + "::" + path.rsplit("::", 1)[-1], "reduction-shuffles"), okimm,
-               "%s reduces lanes with shuffle immediates %s; reference pairs (0xEE, 0x55)" % (path, [hex(x) if x is not None else None for x in imms]), cfg=F.key, where=b.where())
-        # accumulator lane width: every vector add in the outer function uses the lane width of the kernel's result
-        # (16-bit sums for SSE2, 32-bit for SSE4.1/AVX2); a narrower add would wrap partial sums
-        want_lane = {"sse2": "16", "sse4.1": "32", "avx2": "32"}[fam]
-        adds = []
-        for i, blk in enumerate(b.blocks):
-            t = blk["term"]
-            if t["t"] == "call":
-                m_ = re.search(r"_mm(?:256)?_(add|adds|sub)_epi(\d+)$", t["callee"].get("path") or "")
-                if m_:
-                    adds.append(m_.group(2))
-        ctx.ob(r, (path.rsplit("::", 2)[-2] + "::" + path.rsplit("::", 1)[-1], "accumulator-lane-width"), bool(adds) and set(adds) == {want_lane},
-               "%s accumulates with %s-bit vector adds; reference %s-bit lanes (the kernel's result width)" % (path, sorted(set(adds)), want_lane), cfg=F.key, where=b.where())
-        # final scalar extraction
-        tail_calls = [((t["callee"].get("path") or "").rsplit("::", 1)[-1]) for _, t in b.calls()]
-        if fam == "sse2":
-            okx = tail_calls.count("_mm_cvtsi128_si32") == 1 and "wrapping_add" in tail_calls and "wrapping_shr" in tail_calls
-        elif fam == "sse4.1":
-            okx = tail_calls.count("_mm_cvtsi128_si32") == 1
+        if fam == "neon":
+            neon_reduction(ctx, r, F, b, path)
         else:
-            ex = [imm_of(b, i) for i, blk in enumerate(b.blocks) if blk["term"]["t"] == "call" and (blk["term"]["callee"].get("path") or "").endswith("_mm256_extract_epi32")]
-            okx = len(ex) >= 2 and len(ex) % 2 == 0 and all(ex[j:j + 2] == [0, 4] for j in range(0, len(ex), 2))
-        ctx.ob(r, (path.rsplit("::", 2)[-2] + "::" + path.rsplit("::", 1)[-1], "scalar-extraction"), okx,
-               "%s extracts the final sum differently from its family's recorded shape (%s)" % (path, tail_calls[-6:]), cfg=F.key, where=b.where())
+            x86_reduction(ctx, r, F, b, path, fam)
         # kernel called on pairs (x_i, y_i) of the same chunk, and every result is accumulated
         kern = BODY_KERNELS[fam]
         pairs_ok = True
@@ -415,7 +575,60 @@ AGG = {
     "sse2": ("generate::bucket_aggregation::x86_sse2::sub_aggregation", 4),
     "ssse3": ("generate::bucket_aggregation::x86_ssse3::sub_aggregation", 4),
     "avx2": ("generate::bucket_aggregation::x86_avx2::sub_aggregation", 8),
+    "wasm": ("generate::bucket_aggregation::wasm32_simd128::sub_aggregation", 4),
 }
+
+
+def wasm_agg_core(ctx, r, F, b, path, d):
+    """WebAssembly simd128: native unsigned compare (no sign bias), 16-bit-lane bitmask gives two mask bits per bucket:
+    result = (bitmask(v>q2) & 0xaa) | (bitmask((v>q1)^(v>q2)^(v>q3)) & 0x55)."""
+    cmps = {repr(c): c for c in find_all(d, lambda x: x[0] == "ugt32")}.values()
+    info = {}
+    msgs = []
+    ok = True
+    for c in cmps:
+        lhs, rhs = c[1], c[2]
+        m = match(("splat", 32, ("in", V("q"))), rhs)
+        if lhs[0] != "v128_load" or not m:
+            ok = False
+            msgs.append("compare %s" % str(c)[:100])
+        else:
+            info[m["q"]] = c
+    if sorted(info) != [2, 3, 4]:
+        ok = False
+        msgs.append("thresholds compared: params %s; reference q1,q2,q3 = params 2,3,4" % sorted(info))
+    else:
+        c1, c2, c3 = info[2], info[3], info[4]
+        three = sorted(map(repr, [c1, c2, c3]))
+        hi = find_all(d, lambda x: x[0] == "and" and ("k", 0xAA) in x[1:] and any(y == ("bitmask16", c2) for y in x[1:]))
+        lo = find_all(d, lambda x: x[0] == "and" and ("k", 0x55) in x[1:] and any(y[0] == "bitmask16" and y[1][0] == "xor" and _flat_xor(y[1]) == three for y in x[1:]))
+        top = d
+        while top[0] in ("cast",):
+            top = top[-1]
+        if not hi or not lo:
+            ok = False
+            msgs.append("bit packing: high-bit terms %d, low-bit terms %d" % (len(hi), len(lo)))
+        elif not (top[0] == "or" and sorted(map(repr, top[1:])) == sorted(map(repr, [hi[0], lo[0]]))):
+            ok = False
+            msgs.append("result is %s" % str(top)[:120])
+    ctx.ob(r, ("wasm::sub_aggregation", "comparison-core"), ok,
+           "%s: %s; reference (bitmask16(v>q2) & 0xaa) | (bitmask16((v>q1)^(v>q2)^(v>q3)) & 0x55) with unsigned compares of the loaded vector against splat(q)" % (path, "; ".join(msgs[:2])),
+           cfg=F.key, where=b.where())
+
+
+def wasm_load_gate(ctx, r, F, b, path, lanes):
+    gate = None
+    for q in sym.Sym(b).paths():
+        for (bb, dcond, taken, vals) in q.conds:
+            e = n(dcond)
+            m = match(("bin", "Le", ("const", V("k")), ("call", "core::slice::<impl [T]>::len", (P(1),))), e)
+            if m:
+                gate = m["k"]
+    loads, bad, _ = load_offsets(b)
+    okl = gate == lanes and loads == {("slice", 0, lanes * 4)} and not bad
+    ctx.ob(r, ("wasm::sub_aggregation", "load-inside-asserted-chunk"), okl,
+           "%s asserts len >= %s and loads %s; reference assert len >= %d and one %d-byte load at offset 0" % (path, gate, sorted(map(str, loads)), lanes, lanes * 4),
+           cfg=F.key, where=b.where())
 
 
 def agg_kernels(ctx, r, F):
@@ -433,6 +646,10 @@ def agg_kernels(ctx, r, F):
             continue
         p = ps[0]
         d = dag(b, p.ret)
+        if fam == "wasm":
+            wasm_agg_core(ctx, r, F, b, path, d)
+            wasm_load_gate(ctx, r, F, b, path, lanes)
+            continue
         cmps = find_all(d, lambda x: x[0] == "cmpgt")
         cmps = {repr(c): c for c in cmps}.values()
         BIAS = ("splat32", 0x80000000)
@@ -525,7 +742,7 @@ def _flat_xor(x):
 
 def outer_agg(ctx, r, F):
     """All backends write output bytes in reverse order over chunks_exact(4 | 8) of the buckets."""
-    for mod, chunk, outchunk in (("x86_sse2", 4, None), ("x86_ssse3", 4, None), ("x86_avx2", 8, 2)):
+    for mod, chunk, outchunk in (("x86_sse2", 4, None), ("x86_ssse3", 4, None), ("x86_avx2", 8, 2), ("wasm32_simd128", 4, None)):
         for nm in ("aggregate_48", "aggregate_128", "aggregate_256"):
             b = F.fn("generate::bucket_aggregation::%s::%s" % (mod, nm))
             if b is None:
